@@ -134,9 +134,9 @@ type groupT struct {
 	Score   int
 }
 
-// groups hashes every tuple of the product and returns the groups of distinct
-// tuples that share one attestation key.
-func (e *env) groups(p *prodT) []groupT {
+// eachKey computes the attestation key of every tuple of the product (nothing
+// is executed) and hands it to fn; key is only valid during the call.
+func (e *env) eachKey(p *prodT, fn func(idx int, key []byte)) {
 	v0 := e.w.Vals[0]
 	proto := reflect.ValueOf(e.build(p.T, nil, v0)).Elem()
 	obj := reflect.New(p.T.Typ)
@@ -148,9 +148,6 @@ func (e *env) groups(p *prodT) []groupT {
 			vals[i] = append(vals[i], reflect.ValueOf(tok))
 		}
 	}
-	type fp [20]byte
-	first := make(map[fp]int32, p.Size)
-	coll := map[fp][]int{}
 	d := make([]int, len(p.Fields))
 	for i := range p.Fields {
 		obj.Elem().Field(p.Fields[i].Idx).Set(vals[i][0])
@@ -158,18 +155,7 @@ func (e *env) groups(p *prodT) []groupT {
 	for idx := 0; idx < p.Size; idx++ {
 		h, err := claim.ClaimHash()
 		must(err)
-		key := append([]byte(claim.GetChainReferenceId()), skywaytypes.GetAttestationKey(claim.GetSkywayNonce(), h)...)
-		s := sha256.Sum256(key)
-		var k fp
-		copy(k[:], s[:20])
-		if f, ok := first[k]; ok {
-			if _, ok := coll[k]; !ok {
-				coll[k] = []int{int(f)}
-			}
-			coll[k] = append(coll[k], idx)
-		} else {
-			first[k] = int32(idx)
-		}
+		fn(idx, append([]byte(claim.GetChainReferenceId()), skywaytypes.GetAttestationKey(claim.GetSkywayNonce(), h)...))
 		// odometer
 		for i := range d {
 			d[i]++
@@ -181,6 +167,34 @@ func (e *env) groups(p *prodT) []groupT {
 			obj.Elem().Field(p.Fields[i].Idx).Set(vals[i][0])
 		}
 	}
+}
+
+type fp [20]byte
+
+func fingerprint(key []byte) fp {
+	s := sha256.Sum256(key)
+	var k fp
+	copy(k[:], s[:20])
+	return k
+}
+
+// groups hashes every tuple of the product and returns the groups of distinct
+// tuples that share one attestation key.
+func (e *env) groups(p *prodT) []groupT {
+	v0 := e.w.Vals[0]
+	first := make(map[fp]int32, p.Size)
+	coll := map[fp][]int{}
+	e.eachKey(p, func(idx int, key []byte) {
+		k := fingerprint(key)
+		if f, ok := first[k]; ok {
+			if _, ok := coll[k]; !ok {
+				coll[k] = []int{int(f)}
+			}
+			coll[k] = append(coll[k], idx)
+		} else {
+			first[k] = int32(idx)
+		}
+	})
 	var out []groupT
 	for _, members := range coll {
 		// exact comparison of the real keys (the 160-bit fingerprint only pre-selects)
@@ -314,7 +328,7 @@ func (e *env) collisionSearch(shard, nshards int, deadline time.Time, want strin
 			for bi := range e.bases {
 				outs := make([]outcome, len(ms))
 				for i, m := range ms {
-					outs[i], _, _ = e.quorum(e.bases[bi].Ctx, t, same(p.assignment(m), n))
+					outs[i], _, _ = e.quorum(e.bases[bi].Ctx, same(t, p.assignment(m), n))
 					executed++
 				}
 				found := 0
